@@ -16,6 +16,7 @@ func init() {
 			"(C14-e) a loop that skips elements whose key was seen before reads, after the guard, only element fields that are part of the key (a rule or ipBlock that differs elsewhere must not be dropped as a duplicate). " +
 			"(C14-match) every label-match verdict comes from the label-selector library (or the documented full-match comparison for representative peers), never from a hand-written comparison - the library is what makes `matchLabels {k: v}` and `k In [v]` (including the empty value and absent keys) the same selector. " +
 			"(C14-cluster-wide) a rule peer is classed as `entire cluster` only for a present and empty namespaceSelector with an absent or empty podSelector - size tests on the selectors themselves, so that matchExpressions count (the rule of C06-e): `app In [b]` and `app: b` must be classed alike. " +
+			"(C14-asdecoded) no production function rewrites a decoded API object it did not build (namespace default excepted): equivalent spellings are equivalent because the evaluator reads them alike, not because an earlier pass rewrote one into the other (and lost a field on the way). " +
 			"NOT decided: matchLabels vs single-value In (apimachinery), split CIDRs vs whole (library), the relations on actual outputs."
 		rules.MonotoneAccumulators(p, r, "C14-a")
 		rules.DefaultIsTop(p, r, "C14-b")
@@ -26,6 +27,7 @@ func init() {
 		rules.SeenSetKeyCompleteness(p, r, "C14-e")
 		rules.UnconditionalIPBlockContribution(p, r, "C14-f")
 		rules.ClusterWideCondition(p, r, "C14-cluster-wide")
+		rules.ObjectsEvaluatedAsDecoded(p, r, "C14-asdecoded")
 		rules.LabelMatchingByLibrary(p, r, "C14-match")
 	})
 }
